@@ -883,6 +883,13 @@ class Interp:
         except ResolveError as ex:
             raise Unsupported(str(ex))
         key = self.models.key_of(callee)
+        ov = self.env.get("overrides")
+        if ov:
+            segs = key.split("::")
+            for k in (key, "::".join(segs[-2:]), segs[-1]):
+                if k in ov:
+                    self.stats.models_used.add("override:" + k)
+                    return ov[k](self, args, callee)
         if f is not None and not self.models.overrides(key, callee):
             return self.call_function(f, args)
         m = self.models.lookup(key, callee)
